@@ -67,8 +67,10 @@ void crash_line(const char* cls, const void* addr)
     char detail[256];
     detail[0] = 0;
     if (addr) sim::g_heap.classify(addr, detail, sizeof(detail));
+    // an access right next to a live block uses memory that was not obtained from the allocator (C07)
+    const bool oob = std::strstr(detail, "state=live") && !std::strstr(detail, "side=inside");
     char dom[128];
-    sim::mask_to_str(sim::g_cur_domain | sim::pm(sim::C02) |
+    sim::mask_to_str(sim::g_cur_domain | sim::pm(sim::C02) | (oob ? sim::pm(sim::C07) : 0u) |
                          ((sim::g_heap.fault_fired || (sim::g_run && sim::g_run->fault_seen)) ? sim::pm(sim::C17) : 0u),
                      dom);
     char buf[700];
